@@ -1,6 +1,7 @@
 (* C05 — Distribution contracts of round_robin, weighted_round_robin, least_connections.
    Statements only; proofs in Proofs/StrategyProofs.v. *)
 From Helios Require Import Base.Prelude Base.Wrap Model.Hash Model.Strategy Proofs.StrategyProofs Proofs.WrrBoundProofs.
+From Helios Require Import Gen.StrategyGen Proofs.StrategyRefine.
 
 (* round robin with every backend eligible: the pick after counter value c returns the backend at
    index (c+1) mod n and advances the counter by one ... *)
@@ -122,6 +123,30 @@ Theorem C05_lc_min :
               /\ forall x, In x pool -> bflag x = true -> bactive b <= bactive x.
 Proof. exact lc_min. Qed.
 Print Assumptions C05_lc_min.
+
+(* The three selection functions these theorems speak of are the source: Gen/StrategyGen.v is regenerated on every run from the
+   NextBackend loops of round_robin.go, least_connections.go and weighted_round_robin.go (loops over slice indices, pointers into
+   the slice as indices, early return and continue), and for every pool and counter they compute what the models compute: the
+   same pick (by position / identity), the same counter, the same running weights. *)
+Theorem C05_rr_is_source :
+  forall pool ctr,
+    (at_idx pool (fst (sg_rr_next pool ctr)), snd (snd (sg_rr_next pool ctr))) = rr_pick pool ctr
+    /\ fst (snd (sg_rr_next pool ctr)) = pool.
+Proof. exact rr_is_source. Qed.
+Print Assumptions C05_rr_is_source.
+
+Theorem C05_lc_is_source :
+  forall pool ctr, at_idx pool (fst (sg_lc_next pool ctr)) = lc_pick pool /\ snd (sg_lc_next pool ctr) = (pool, ctr).
+Proof. exact lc_is_source. Qed.
+Print Assumptions C05_lc_is_source.
+
+Theorem C05_wrr_is_source :
+  forall pool ctr, NoDup (map bid pool) ->
+    fst (snd (sg_wrr_next pool ctr)) = snd (wrr_pick pool)
+    /\ option_map (fun j => bid (nth j pool dB)) (fst (sg_wrr_next pool ctr)) = option_map bid (fst (wrr_pick pool))
+    /\ snd (snd (sg_wrr_next pool ctr)) = ctr.
+Proof. exact wrr_is_source. Qed.
+Print Assumptions C05_wrr_is_source.
 
 Example C05_nonvacuous :
   let p := [mkB 1 1 5 true 0 0 0; mkB 2 2 1 true 0 0 0; mkB 3 3 1 true 0 0 0] in
